@@ -5,10 +5,14 @@
    HandedBack.
 2. Conformance: a C++ subject library whose every function logs what it
    receives and produces (rt/vt.c) is described in YAML, wrapped by the real
-   Shroud, compiled with g++; a generated C driver (compiled as C, including
-   only the generated headers) calls every C entry point with boundary values
-   and logs what it supplies and gets back; each call (CallerInvoke, LibEnter,
-   LibExit, CallerReturn) is validated by TLC (Trace_CallBridge).
+   Shroud (C and Fortran wrappers, with and without F_CFI), compiled with g++
+   and gfortran; a generated Fortran program calls every documented Fortran
+   name (generic names for overloads, default arguments and templates,
+   type-bound procedures of the class) with boundary values and character
+   lengths and logs what it supplies and gets back; each call (CallerInvoke,
+   LibEnter, LibExit, CallerReturn) is validated by TLC (Trace_CallBridge).
+   Besides the fixed library (rt/cases.py) the libraries are drawn from the
+   TLA+ grammar LibGen by TLC -simulate.
 """
 import concurrent.futures as cf
 import json
@@ -19,7 +23,7 @@ import sys
 sys.path.insert(0, os.path.dirname(os.path.dirname(os.path.abspath(__file__))))
 import common  # noqa: E402
 from common import Check, model_check, validate_traces, MachineryError  # noqa: E402
-from rt import cases as K, cgen, fgen  # noqa: E402
+from rt import cases as K, cgen, fgen, libgen  # noqa: E402
 
 
 def run(tier):
@@ -37,13 +41,26 @@ def run(tier):
         configs = [("cxx", {}, []), ("cxx-cfi", {"F_CFI": True}, [])]
         if thorough:
             configs += [("cxx-nodebug", {"debug": False}, []), ("cxx-cfi-nodebug", {"F_CFI": True, "debug": False}, [])]
+        configs = [(n, o, a, K.fortran_cases(), True) for n, o, a in configs]
+        # libraries out of the TLA+ grammar LibGen (specs/LibGen.tla), restricted to the rows the Fortran driver knows
+        libs, rl = libgen.sample_libraries(400 if thorough else 12, common.seed())
+        c.add_tlc(rl, "LibGen/simulate")
+        nlib = 0
+        for lib in libs:
+            if lib["language"] != "c++" or nlib >= (160 if thorough else 3):
+                continue
+            cs = libgen.cases_of(lib, set(K.FROWS), set(K.FRESULTS))
+            if not cs:
+                continue
+            configs.append(("libgen%d" % nlib, libgen.driver_options(lib), [], cs, lib["class"]))
+            nlib += 1
         traces, labels = [], []
-        with common.scratch("c02-") as base:
+        with common.scratch("c01-") as base:
             def one(cfg):
-                name, opts, argv = cfg
-                return name, fgen.build_and_run_f(os.path.join(base, name), K.fortran_cases(), True,
+                name, opts, argv, cs, wc = cfg
+                return name, fgen.build_and_run_f(os.path.join(base, name), cs, wc,
                                                   6 if thorough else 4, opts, argv)
-            with cf.ThreadPoolExecutor(4) as ex:
+            with cf.ThreadPoolExecutor(max(4, common.NCPU // 2)) as ex:
                 res = list(ex.map(one, configs))
         for name, rr in res:
             for kind, what in rr["problems"]:
